@@ -14,7 +14,8 @@ ensures
       the variant does not provide is refused (documented exception: time-like matching beyond NLO);
   (c) refusals that the documentation promises: polarised AND time-like; polarised beyond NNLO; QED singlet / valence with a method other than
       iterate-exact.
-Not covered: finiteness of the floating-point results, the runner above the kernels, Couplings / MSbar numerics.
+  (d) no nan from constants: with the literature beta vector (nf 3-6) no real-typed np.sqrt / np.log in the closed-form kernels receives a negative constant.
+Not covered: finiteness of the floating-point results beyond (d), the runner above the kernels, Couplings / MSbar numerics.
 """
 from fractions import Fraction as Q
 
@@ -53,7 +54,23 @@ def replay():
                     out.append(f"{name} gamma_singlet order {order} nf {nf}: {type(e).__name__}: {e}"); continue
                 z = [k for k in range(order) if np.all(np.asarray(G)[k] == 0)]
                 if z: out.append(f"{name} gamma_singlet order {order} nf {nf}: slot(s) {z} silently zero")
-    return bool(out), "; ".join(out[:5]) if out else "dispatchers fill every slot or refuse"
+    # finite kernels for every nf with the real closed forms
+    import warnings
+    from eko.kernels import non_singlet as ns, singlet as s, EvoMethods
+    rng = np.random.default_rng(4)
+    with warnings.catch_warnings():
+        warnings.simplefilter("ignore")
+        for nf in (3, 4, 5, 6):
+            for order in (1, 2, 3, 4):
+                g = (rng.normal(size=order) + 1j * rng.normal(size=order)) * 3.0 ** np.arange(order)
+                G = (rng.normal(size=(order, 2, 2)) + 1j * rng.normal(size=(order, 2, 2))) * (3.0 ** np.arange(order))[:, None, None]
+                for m in EvoMethods:
+                    try:
+                        k1 = ns.dispatcher((order, 0), m, g, 0.02, 0.03, nf); k2 = s.dispatcher((order, 0), m, G, 0.02, 0.03, nf, 2, (order, 0))
+                    except (NotImplementedError, ValueError):
+                        continue
+                    if not (np.all(np.isfinite(k1)) and np.all(np.isfinite(k2))): out.append(f"nf={nf} order={order} {m.name}: non-finite kernel ({k1})")
+    return bool(out), "; ".join(out[:5]) if out else "dispatchers fill every slot or refuse; kernels finite"
 '''
 
 
@@ -88,7 +105,35 @@ def run(chk):
                        *[f"ekore.operator_matrix_elements.{v}:{f}" for v in ("unpolarized.space_like", "unpolarized.time_like", "polarized.space_like") for f in ("A_singlet", "A_non_singlet")],
                        "eko.scale_variations.expanded:*", "eko.scale_variations.exponentiated:*")
     chk.trust("numerical leaves (splitting functions, matching coefficients, kernel bodies, Mellin path, interpolation) return values for every argument in their domain (opaque, non-zero)")
-    chk.uncovered("finiteness of the floating-point results", "the runner, Couplings and MSbar-mass numerics above / beside the kernel layer", "QED with the polarised / time-like flags is computed as unpolarised space-like (finite, hence within the letter of the statement)")
+    chk.uncovered("finiteness of the floating-point results beyond clause (d) (overflow, cancellation, poles of the leaves)", "the runner, Couplings and MSbar-mass numerics above / beside the kernel layer", "QED with the polarised / time-like flags is computed as unpolarised space-like (finite, hence within the letter of the statement)")
+
+    # ---- (d) no nan from real-typed sqrt / log of the nf-dependent constants: the real closed-form kernels with the literature beta vector, nf 3-6 ----------
+    from pyvc.rt import FloatDomainError
+    gsym = np.array([T.var(f"g{k}") for k in range(4)], dtype=object)
+    Gsym = np.empty((4, 2, 2), dtype=object)
+    for k in range(4):
+        Gsym[k] = symmat(f"G{k}_", 2)
+    saved_roots = e4.roots
+    e4.roots = lambda bl: [T.app(f"cubic_root_{i}", *bl) for i in (1, 2, 3)]
+    try:
+        for nf in (3, 4, 5, 6):
+            for order in (1, 2, 3, 4):
+                bad = []
+                for m in EvoMethods:
+                    for sector, call in (("non-singlet", lambda: ns.dispatcher((order, 0), m, gsym[:order].copy(), Q(1, 60), Q(1, 40), nf)),
+                                         ("singlet", lambda: s.dispatcher((order, 0), m, Gsym[:order].copy(), Q(1, 60), Q(1, 40), nf, 1, (5, 0)))):
+                        try:
+                            call()
+                        except FloatDomainError as e:
+                            bad.append(f"{sector} {m.name}: {e}")
+                        except T.Unsupported:
+                            pass          # a construct of the numerical bodies outside the symbolic engine: not this clause's subject
+                        except (NotImplementedError, ValueError):
+                            pass
+                chk.ground(f"C04.float_domain[nf={nf},order={order}]", not bad, fn="eko.kernels.evolution_integrals", replay=rp,
+                           goal="with the literature beta coefficients no real-typed np.sqrt / np.log receives a negative constant (which numpy turns into nan) in any kernel", detail="; ".join(bad[:3]))
+    finally:
+        e4.roots = saved_roots
 
     # ---- stubs for the leaves ------------------------------------------------------------------------------------------------------------------
     saved = []
